@@ -18,9 +18,14 @@ Judge(r) ==
              ELSE IF Len(r.reqs) = 2 /\ r.reqs[2] = <<Branch(r.log, r.rb), r.rb, r.latest, r.rb, r.rb>> THEN {}
              ELSE {<<"C08", "after ROLLBACK(r) the stream is not re-requested from r on the branch that contains r with snapshot r..r">>})
        \cup (IF r.rb >= 0 /\ r.catchup # r.seq THEN {<<"C08", "the position reached before the rollback is not the observer's catch-up mark">>} ELSE {})
+       \* right behind the accepting answer the node sent every event from the resume point up to one past the position reached
+       \cup (IF r.delivered = <<r.seq + 1>> THEN {}
+             ELSE IF r.rb >= 0 THEN {<<"C08", "after a rollback an event at or below the position already reached was shown again (or the first new one was not)">>}
+             ELSE {<<"C03", "the first event after the resume point was not delivered exactly once">>})
   ELSE IF r.kind = "FID" THEN
        (IF r.req = r.want THEN {} ELSE {<<"C02", "a 64-bit field of the stored offset is altered in the stream request">>})
-       \cup (IF r.cb = r.want4 THEN {} ELSE {<<"C02", "save + load through the Couchbase metadata backend alters a 64-bit field">>})
+       \cup (IF r.cb = r.want4 THEN {} ELSE {<<"C02", "save + load through the Couchbase metadata backend alters a 64-bit field">>,
+                                           <<"C01", "a vBucket's durable checkpoint is not the position saved for it (several vBuckets saved by one call)">>})
        \cup (IF r.file = r.want4 THEN {} ELSE {<<"C02", "save + load through the file metadata backend alters a 64-bit field">>})
        \cup (IF r.key = r.wantkey THEN {} ELSE {<<"C14", "the checkpoint document key is not <prefix><group>:checkpoint:<vbID>">>})
   ELSE {}
